@@ -330,7 +330,9 @@ class EqMethod(MethodDescriptor):
                 if value_self.__func__ is not value_other.__func__:
                     return False
                 continue
-            if value_self != value_other:
+            # (Identical values are equal, as in comparisons of built-in
+            # containers; e.g. NaN, or a reference back to the instance itself.)
+            if value_self is not value_other and value_self != value_other:
                 return False
         return True
 
